@@ -154,13 +154,19 @@ def make_objective(kind, q, p, samples):
     raise ValueError(kind)
 
 
-def scn_value(kind, samples):
+def scn_value(kind, samples, built_with=None):
+    """built_with: sample shape given to the constructor when it differs from the one passed at evaluation time
+    (`objective(samples=...)`, as optim/convergence.py does)"""
     samples = tuple(samples)
 
     def scn(mk):
         q, p, c, log, state = _stubs(mk, samples)
-        obj = make_objective(kind, q, p, samples)
-        val = obj._call()
+        if built_with is None:
+            obj = make_objective(kind, q, p, samples)
+            val = obj._call()
+        else:
+            obj = make_objective(kind, q, p, tuple(built_with))
+            val = obj._call(samples=torch.Size(samples))
         return [("true", "scalar_result", tuple(val.shape) == (), str(tuple(val.shape))),
                 ("eq", "objective_is_log_marginal", val, [el(c)] if tuple(val.shape) == () else c)]
     return scn
@@ -274,6 +280,52 @@ def ob_conjugate(kind, samples, wrap):
     return Ob("C14.conjugate.%s.%s[samples=%s]" % ("joint_q" if wrap else "bare_q", kind, list(samples)), "B", body, clause="real conjugate model (bounded)", funcs=FUNCS)
 
 
+def ob_conjugate_sequence(kind):
+    """real objects, q moved to the posterior AFTER earlier evaluations (public setters), then evaluated repeatedly:
+    every value is the log marginal and every request uses fresh draws shared by p and q"""
+    def body():
+        from torchtree.core.parameter import Parameter
+        joint, q, qd, logz = _real_objects((4,), 0)
+        post_conc = qd.dict_parameters["concentration"].tensor.clone()
+        post_rate = qd.dict_parameters["rate"].tensor.clone()
+        qd.dict_parameters["concentration"].tensor = torch.tensor([1.0], dtype=torch.float64)
+        qd.dict_parameters["rate"].tensor = torch.tensor([1.0], dtype=torch.float64)
+        obj = make_objective(kind, q, joint, (4,))
+        torch.manual_seed(3)
+        obj(); obj()
+        qd.dict_parameters["concentration"].tensor = post_conc
+        qd.dict_parameters["rate"].tensor = post_rate
+        draws = []
+        for k in range(3):
+            v = float(obj())
+            x = qd.x.tensor.detach().clone()
+            lp_model = float(torch.logsumexp(torch.zeros(1), 0))  # placeholder to keep structure simple
+            # densities recomputed from scratch at the stored draws
+            lam = x.reshape(-1)
+            from_scratch_q = torch.distributions.Gamma(post_conc, post_rate).log_prob(lam.unsqueeze(-1)).reshape(-1)
+            if abs(v - logz) > 1e-8 * max(1, abs(logz)):
+                raise Refuted("%s after q was moved to the posterior: evaluation %d returns %r, log marginal %r" % (kind, k + 1, v, logz),
+                              witness={"objective": kind, "evaluation": k + 1, "value": v, "log_marginal": logz},
+                              replay={"kind": "custom", "contract": "C14", "func": "replay_conjugate_sequence", "args": {"objective": kind}}, confirmed=True)
+            if not torch.allclose(q().reshape(-1), from_scratch_q, atol=1e-10):
+                raise Refuted("%s: q() is not the variational density at the stored draws (stale)" % kind, witness={"objective": kind},
+                              replay={"kind": "custom", "contract": "C14", "func": "replay_conjugate_sequence", "args": {"objective": kind}}, confirmed=True)
+            if draws and torch.equal(draws[-1], x):
+                raise Refuted("%s: evaluation %d did not draw fresh samples" % (kind, k + 1), witness={"objective": kind},
+                              replay={"kind": "custom", "contract": "C14", "func": "replay_conjugate_sequence", "args": {"objective": kind}}, confirmed=True)
+            draws.append(x)
+        return {"backend": "concrete", "cases": 3, "statement": "gamma-exponential, q set to the posterior after two evaluations: three further evaluations equal log Z on fresh shared draws"}
+    return Ob("C14.conjugate.sequence.%s" % kind, "B", body, clause="real conjugate model, q moved to the posterior between evaluations (bounded)", funcs=FUNCS)
+
+
+def replay_conjugate_sequence(args):
+    try:
+        ob_conjugate_sequence(args["objective"]).fn()
+    except Refuted as e:
+        return False, e.detail
+    return True, "held"
+
+
 def replay_conjugate(args):
     joint, q, qd, logz = _real_objects(tuple(args["samples"]), args["seed"])
     obj = make_objective(args["objective"], q if args["wrap"] else qd, joint, tuple(args["samples"]))
@@ -297,10 +349,16 @@ def obligations(tier, seed):
                 obs.append(scenario_ob("C14", "C14.value2d.%s[samples=[%d,%d]]" % (kind, S, K), "V", "scn_value", (kind, (S, K)),
                                        clause="objective ≡ log marginal at the exact posterior (multi-sample shape)", funcs=FUNCS, seed=seed))
     for kind in kinds:
+        for built, used in (((4, 3), (2, 2)), ((4, 3), (3, 1)), ((5,), (2, 3)), ((2, 2), (3,)), ((3,), (2,))):
+            nm = "C14.value%s.%s[built=%s,evaluated=%s]" % ("2d" if len(used) == 2 else "", kind, list(built), list(used))
+            obs.append(scenario_ob("C14", nm, "V", "scn_value", (kind, used, built),
+                                   clause="objective ≡ log marginal when the sample shape is given at evaluation time", funcs=FUNCS, seed=seed))
+    for kind in kinds:
         obs.append(ob_protocol(kind, (3,)))
         obs.append(ob_fresh_draw(kind, (3,)))
     for kind in kinds:
         for wrap in (True, False):
             obs.append(ob_conjugate(kind, (4,), wrap))
         obs.append(ob_conjugate(kind, (3, 2), True))
+        obs.append(ob_conjugate_sequence(kind))
     return obs
